@@ -1,0 +1,13 @@
+//go:build verif
+
+package views
+
+// VerifRender renders the view with the terminal (tty) or plain (notty)
+// template, independently of what os.Stdin is attached to. Only compiled with
+// the "verif" build tag.
+func (vc *ViewContext[T]) VerifRender(tty bool) string {
+	if tty {
+		return render(vc.view.tty, vc.data)
+	}
+	return render(vc.view.notty, vc.data)
+}
